@@ -16,11 +16,6 @@ Qed.
 Lemma brace_not_absent t : absent_text (123%N :: t) = false.
 Proof. reflexivity. Qed.
 
-Lemma reserved_forgiving : reserved k_forgiving = true.
-Proof. reflexivity. Qed.
-Lemma reserved_self : reserved k_self = true.
-Proof. reflexivity. Qed.
-
 Section FieldProofs.
   Variable V : str -> json -> bool.
 
@@ -52,14 +47,13 @@ Section FieldProofs.
   Proof. unfold cls_ok. intro H. apply andb_true_iff in H as [H _]. apply nodup_keys_NoDup. exact H. Qed.
 
   Lemma cls_field c k d : cls_ok V c = true -> In (k, d) (jc_fields c) ->
-    str_ok k = true /\ reserved k = false /\ jwfb d = true /\ no_obj d = true /\
+    str_ok k = true /\ jwfb d = true /\ no_obj d = true /\
     (dropped (jc_json_drop c) d = true \/ elem_ok V c k d = true).
   Proof.
     unfold cls_ok. intros H Hin. apply andb_true_iff in H as [_ H]. rewrite forallb_forall in H.
     specialize (H (k, d) Hin). cbn [fst snd] in H.
     apply andb_true_iff in H as [H H5]. apply andb_true_iff in H as [H H4].
-    apply andb_true_iff in H as [H H3]. apply andb_true_iff in H as [H1 H2].
-    apply negb_true_iff in H2. apply orb_true_iff in H5. tauto.
+    apply andb_true_iff in H as [H1 H3]. apply orb_true_iff in H5. tauto.
   Qed.
 
   Lemma dropped_is_default c o k v : wf_obj V c o = true -> In (k, v) o ->
@@ -75,14 +69,14 @@ Section FieldProofs.
 
   Lemma kept_props c o : cls_ok V c = true -> wf_obj V c o = true ->
     forall k v, In (k, v) (kept (jc_json_drop c) o) ->
-    elem_ok V c k v = true /\ jwfb v = true /\ no_obj v = true /\ str_ok k = true /\ reserved k = false
+    elem_ok V c k v = true /\ jwfb v = true /\ no_obj v = true /\ str_ok k = true
     /\ ahas k (jc_fields c) = true.
   Proof.
     intros C W k v Hin. unfold kept in Hin. apply filter_In in Hin as [Hin Hd]. cbn [snd] in Hd.
     apply negb_true_iff in Hd.
     pose proof (wf_field c o k v W Hin) as F. unfold field_ok in F.
     destruct (aget k (jc_fields c)) as [d|] eqn:G; [|discriminate].
-    pose proof (cls_field c k d C (aget_in _ _ _ G)) as (P1 & P2 & P3 & P4 & P5).
+    pose proof (cls_field c k d C (aget_in _ _ _ G)) as (P1 & P3 & P4 & P5).
     assert (HK : ahas k (jc_fields c) = true) by (unfold ahas; rewrite G; reflexivity).
     apply orb_true_iff in F as [F|F].
     - apply json_eqb_eq in F. subst d. destruct P5 as [P5|P5]; [congruence|]. tauto.
@@ -103,7 +97,7 @@ Section FieldProofs.
     - f_equal. symmetry. apply assoc_ext.
       + rewrite aset_all_keys; [exact K|].
         intros [k v] Hin. cbn [fst].
-        pose proof (kept_props c o C W k v (Permutation_in _ HP Hin)) as (_ & _ & _ & _ & _ & Q). exact Q.
+        pose proof (kept_props c o C W k v (Permutation_in _ HP Hin)) as (_ & _ & _ & _ & Q). exact Q.
       + exact NDo.
       + intro k. rewrite (aset_all_get sd _ k NDs).
         rewrite (aget_perm sd _ k HP NDs).
@@ -113,7 +107,7 @@ Section FieldProofs.
           symmetry. exact (dropped_is_default c o k v W (aget_in _ _ _ G) D).
         * symmetry. apply aget_none_notin. rewrite <- K. apply aget_none_notin. exact G.
     - intros k v Hin.
-      pose proof (kept_props c o C W k v (Permutation_in _ HP Hin)) as (Q1 & _ & _ & _ & _ & Q). tauto.
+      pose proof (kept_props c o C W k v (Permutation_in _ HP Hin)) as (Q1 & _ & _ & _ & Q). tauto.
   Qed.
 
   Lemma kept_jwfb c o : cls_ok V c = true -> wf_obj V c o = true -> jwfb (JObj (kept (jc_json_drop c) o)) = true.
@@ -133,15 +127,17 @@ Section FieldProofs.
     pose proof (kept_props c o C W k v Hin) as (_ & _ & Q3 & _). rewrite (no_obj_jsort v Q3). reflexivity.
   Qed.
 
-  Lemma not_reserved_keys c o (sd : obj) : cls_ok V c = true -> wf_obj V c o = true ->
-    Permutation sd (kept (jc_json_drop c) o) -> ahas k_forgiving sd || ahas k_self sd = false.
+  Lemma filter_all {A} (p : A -> bool) l : (forall x, In x l -> p x = true) -> filter p l = l.
   Proof.
-    intros C W HP.
-    assert (Q : forall k, reserved k = true -> ahas k sd = false).
-    { intros k R. destruct (ahas k sd) eqn:E; [|reflexivity].
-      apply ahas_in in E. apply in_map_iff in E as ([k' v] & E1 & E2). cbn [fst] in E1. subst k'.
-      pose proof (kept_props c o C W k v (Permutation_in _ HP E2)) as (_ & _ & _ & _ & Q5 & _). congruence. }
-    rewrite (Q _ reserved_forgiving), (Q _ reserved_self). reflexivity.
+    induction l as [|x l IH]; intro H; [reflexivity|]. simpl. rewrite (H x (or_introl eq_refl)).
+    rewrite IH; [reflexivity|]. intros y Hy. apply H. right. exact Hy.
+  Qed.
+
+  Lemma kept_all_known c o (sd : obj) : cls_ok V c = true -> wf_obj V c o = true ->
+    Permutation sd (kept (jc_json_drop c) o) -> filter (known_key c) sd = sd.
+  Proof.
+    intros C W HP. apply filter_all. intros [k v] Hin. unfold known_key. cbn [fst].
+    pose proof (kept_props c o C W k v (Permutation_in _ HP Hin)) as (_ & _ & _ & _ & Q). exact Q.
   Qed.
 
   (* the encoded text of a constructible value decodes to that value; a value with nothing to encode is
@@ -155,7 +151,7 @@ Section FieldProofs.
       cbn [andb]. unfold from_json.
       change (absent_text (jprint (JObj []))) with false. cbv iota.
       change (jparse (jprint (JObj []))) with (Some (JObj [])). cbv iota.
-      unfold of_jv. change (ahas k_forgiving (@nil (str * json)) || ahas k_self (@nil (str * json))) with false. cbv iota.
+      unfold of_jv. cbn [filter].
       rewrite (of_dict_kept c o [] C W); [reflexivity|]. rewrite K. constructor.
     - cbn [andb]. rewrite <- K.
       pose proof (kept_jwfb c o C W) as J. pose proof (kept_jsort c o C W) as SJ.
@@ -166,7 +162,7 @@ Section FieldProofs.
       change (jprint (jsort (JObj (kept (jc_json_drop c) o)))) with (jdumps true (JObj (kept (jc_json_drop c) o))).
       rewrite (jparse_jdumps true _ J). rewrite SJ. unfold of_jv.
       pose proof (sort_kv_perm (kept (jc_json_drop c) o)) as HP.
-      pose proof (not_reserved_keys c o _ C W HP) as R. unfold k_forgiving, k_self in R. rewrite R.
+      rewrite (kept_all_known c o _ C W HP).
       rewrite (of_dict_kept c o _ C W HP). reflexivity.
   Qed.
 
@@ -185,45 +181,30 @@ Section FieldProofs.
     destruct (aget k' o); [reflexivity|discriminate].
   Qed.
 
-  Lemma set_fields_skip_unknown c kw : forall o,
-    (forall k v, In (k, v) kw -> ahas k o = false -> check_value c v = None) ->
-    set_fields V c true kw o = set_fields V c true (filter (fun kv => ahas (fst kv) o) kw) o.
-  Proof.
-    induction kw as [|[k v] kw IH]; intros o H; [reflexivity|].
-    cbn [filter fst]. destruct (ahas k o) eqn:K.
-    - cbn [set_fields]. destruct (check_value c v); [reflexivity|]. rewrite K.
-      destruct (jc_validated c && negb (V k v)); [reflexivity|].
-      rewrite IH.
-      + f_equal. apply filter_ext. intros [k' v']. cbn [fst]. apply ahas_aset_same. exact K.
-      + intros k' v' Hin Hk. apply (H k' v' (or_intror Hin)). rewrite <- Hk. symmetry. apply ahas_aset_same. exact K.
-    - cbn [set_fields]. rewrite (H k v (or_introl eq_refl) K). rewrite K.
-      apply IH. intros k' v' Hin. apply (H k' v' (or_intror Hin)).
-  Qed.
-
-  Definition known (c : jclass) (kv : str * json) : bool := ahas (fst kv) (jc_fields c).
   Definition some_res (r : res obj) : res (option obj) := match r with Ok o => Ok (Some o) | Err e => Err e end.
 
-  (* a text with extra unknown keys decodes exactly as the same text without them (no known key is dropped,
-     nothing is raised), provided the unknown values pass the class's per-value assertions *)
+  (* a text decodes exactly as its known part: unknown keys, whatever their values, are ignored, nothing is
+     raised because of them and no known key is dropped *)
   Theorem field_forward_compat c t d : jparse t = Some (JObj d) -> absent_text t = false ->
-    ahas k_forgiving d || ahas k_self d = false ->
-    (forall k v, In (k, v) d -> ahas k (jc_fields c) = false -> check_value c v = None) ->
-    from_json V c (Some t) = some_res (of_dict V c (filter (known c) d)).
+    from_json V c (Some t) = some_res (of_dict V c (filter (known_key c) d)).
+  Proof. intros P A. unfold from_json. rewrite A, P. reflexivity. Qed.
+
+  (* two texts with the same known entries decode alike *)
+  Theorem field_forward_compat_same c t t' d d' : jparse t = Some (JObj d) -> jparse t' = Some (JObj d') ->
+    absent_text t = false -> absent_text t' = false ->
+    filter (known_key c) d' = filter (known_key c) d -> from_json V c (Some t') = from_json V c (Some t).
   Proof.
-    intros P A R H. unfold from_json. rewrite A, P. unfold of_jv.
-    unfold k_forgiving, k_self in R. rewrite R. unfold some_res, of_dict, defaults.
-    rewrite (set_fields_skip_unknown c d (jc_fields c) H). reflexivity.
+    intros P P' A A' E. rewrite (field_forward_compat c t d P A), (field_forward_compat c t' d' P' A'), E. reflexivity.
   Qed.
 
   (* ... in particular the encoding of a constructible value with unknown keys spliced in anywhere decodes to
      that value *)
   Theorem field_forward_compat_value c o t d : cls_ok V c = true -> wf_obj V c o = true ->
-    jparse t = Some (JObj d) -> absent_text t = false -> ahas k_forgiving d || ahas k_self d = false ->
-    (forall k v, In (k, v) d -> ahas k (jc_fields c) = false -> check_value c v = None) ->
-    Permutation (filter (known c) d) (kept (jc_json_drop c) o) ->
+    jparse t = Some (JObj d) -> absent_text t = false ->
+    Permutation (filter (known_key c) d) (kept (jc_json_drop c) o) ->
     from_json V c (Some t) = Ok (Some o).
   Proof.
-    intros C W P A R H HP. rewrite (field_forward_compat c t d P A R H).
+    intros C W P A HP. rewrite (field_forward_compat c t d P A).
     rewrite (of_dict_kept c o _ C W HP). reflexivity.
   Qed.
 
